@@ -12,6 +12,18 @@ NOTE = ("Trusted base: Lean 4.33 kernel (axioms propext, Classical.choice, Quot.
         "alv.py. ")
 
 CLAIMS = {
+ "C16": dict(
+   text="Theorems AL.Properties.C16.case_insensitive / comment_irrelevant / leading_blanks / operand_blanks / skipped_lines / crlf "
+        "(AL.Lemmas.filterGo_case, filterGo_comment, filterGo_deblank): for EVERY byte string, not only the corpora, the per-line "
+        "function cannot see the case of any letter (mnemonic, registers, keywords, hex digits), anything from ';' or '%' on, leading "
+        "blanks/tabs, or blanks/tabs anywhere behind the mnemonic's separator; label/section/global/blank lines contribute nothing "
+        "wherever they are inserted, hence LF = CRLF. Number-base independence (decimal/hex/leading zeros) is exercised by the oracle "
+        "and proved where numerals are interpreted (C03/C02 numeral lemmas, when present). Tie + oracle: every accepted corpus line x 8 "
+        "(thorough 64) seeded rewritings vs its canonical form on the implementation, programs with inserted skipped lines and CR/LF/CRLF.",
+   note="The filter lemmas are about AL.Impl.Filter (transliteration of filter_assembly_str_fsa, tied by T2). The numeral part is "
+        "currently covered by differential/oracle execution, not yet by a theorem.",
+   technique="Lean 4 proofs by induction over the input text (filter automaton) + metamorphic oracle and differential correspondence",
+   design="8/C16"),
  "C06": dict(
    text="Theorems AL.Properties.C06.program_code / concat_call / split_codes / split_calls with AL.Lemmas.assembleLine_local and "
         "asm_layout: for EVERY text the codes assemble_all emits are the codes of its lines (split at each CR/LF) assembled ALONE by the "
